@@ -54,7 +54,8 @@ CLAIMS["C15"] = dict(
          "The real PolygonFilter.save / _load run on symbolic name "
          "characters (1..3 printable ASCII), inversion flag and identifier: "
          "one or two filters written to one file are loaded back with equal "
-         "name, axes, inversion, identifier and points.",
+         "name, axes, inversion, identifier and points."
+         " Integer-typed x data with fractional y data (numpy's truncating assignment cast is modelled).",
     note="Trusted: z3/nlsat, symx, the hand model of the 10-line "
          "_points_in_poly wrapper. Exact reals, not IEEE doubles; vertex "
          "count bounded; names with leading/trailing blanks or line breaks "
@@ -119,7 +120,8 @@ CLAIMS["C06"] = dict(
          "dataset uses (2-safety), plus availability <=> reading succeeds "
          "and the documented scenario precedence. Three deliberate sanity "
          "checks are reported as KNOWN-FINDING."
-         " Histories also set / replace temporary features (ml_class from temporary ml_score features, emodulus with a temporary temp feature) and check the documented precedence of the temperature sources.",
+         " Histories also set / replace temporary features (ml_class from temporary ml_score features, emodulus with a temporary temp feature) and check the documented precedence of the temperature sources."
+         " `ds.features` must agree with `feat in ds`.",
     note="Trusted: z3, symx, md5-injectivity stub, uninterpreted numeric "
          "kernels (crosstalk inversion is modelled exactly). Feature data "
          "are constant; plugin/ML features and hierarchy children are "
@@ -142,7 +144,8 @@ CLAIMS["C14"] = dict(
          "matching, available, permitted hops), isolation (no file-type basin "
          "below a remote dataset), completeness for a direct valid basin and "
          "absence of escaping exceptions."
-         " The permission flag is the one the real RTDC_HDF5.__init__ assigns per format name; basin definitions whose declared type contradicts the class of their format must not be followed.",
+         " The permission flag is the one the real RTDC_HDF5.__init__ assigns per format name; basin definitions whose declared type contradicts the class of their format must not be followed."
+         " A basin definition with two candidate locations resolves to the first location holding a matching, available file.",
     note="Trusted: symx, the stub dataset/basin subclasses (format, "
          "availability, _load_dataset). Bounds: 3 (4) files, identifiers "
          "from 6 relation classes. The deciding step here is exhaustive "
@@ -230,7 +233,8 @@ CLAIMS["C11"] = dict(
          "RTDC_HDF5.parse_config round trip over the in-memory h5py "
          "stand-in. CrossHair conditions that time out are reported as "
          "undecided (obligations > discharged), never as success."
-         " The real load_from_file runs on a text with symbolic letter case of section/key and symbolic digits; sequence-valued [user] metadata of length 1..3 survives the real writer / parse_config.",
+         " The real load_from_file runs on a text with symbolic letter case of section/key and symbolic digits; sequence-valued [user] metadata of length 1..3 survives the real writer / parse_config."
+         " `Configuration(files=...)` rejects keys that are not defined for a section.",
     note="Trusted: z3, symx, CrossHair 0.0.110. Strings are bounded to 2-3 "
          "printable ASCII characters; numpy/bytes value representations and "
          "h5py attribute type changes are outside the claim. In the quick "
@@ -252,7 +256,8 @@ CLAIMS["C18"] = dict(
          "and percentiles one-to-one without raising; crosstalk correction "
          "inverts the modelled spill-over for every non-negative invertible "
          "matrix."
-         " get_volume wrapper (>= 4 points give a volume; repeating a vertex changes nothing); remove_duplicates == removal of consecutive (circular) duplicates.",
+         " get_volume wrapper (>= 4 points give a volume; repeating a vertex changes nothing); remove_duplicates == removal of consecutive (circular) duplicates."
+         " 16-bit gray values; wrap-around of narrow integer casts is modelled.",
     note="Trusted: z3/nlsat, symx, numpy shim (roll, diff, resize, symbolic "
          "3x3 inverse); np.std/np.percentile are uninterpreted. NOT covered "
          "(not encodable here, see not-applicable parts in DESIGN.md): "
@@ -300,7 +305,8 @@ CLAIMS["C01"] = dict(
          "appended to a log of symbolic width. z3 proves: stored sequence == "
          "previous ++ written, index 1..N as uint32, event count, mask "
          "255/0 round trip, contiguous contour keys, no truncated line."
-         " Also: replace-mode sessions that store contours twice, log lines with symbolic character AND byte counts (multi-byte text).",
+         " Also: replace-mode sessions that store contours twice, log lines with symbolic character AND byte counts (multi-byte text)."
+         " The `index` feature is an enumeration 1..N in append and replace mode.",
     note="Trusted: z3, symx, the h5py stand-in (validated each run against "
          "real h5py for the append loop). libhdf5 itself, value dtype "
          "casting, compound tables and unicode normalisation are outside.",
@@ -358,7 +364,8 @@ CLAIMS["C08"] = dict(
          "copy routes and the chunk-wise copy loop are explored; z3 proves "
          "the structural diff source/copy empty, the source untouched, "
          "summaries completed, copy(copy) == copy; variable-length logs with "
-         "symbolic byte and character lengths are copied without truncation.",
+         "symbolic byte and character lengths are copied without truncation."
+         " The real dclab-repack / dclab-compress task functions run with symbolic options over the in-memory files: only what an option strips may be missing.",
     note="Trusted: z3, symx, h5py stand-in (iter_chunks tiling, zstd filter "
          "report, h5o.copy = deep copy). dclab-tdms2rtdc is NOT covered "
          "(nptdms/imageio parsing is not encodable); real re-chunking / "
@@ -400,7 +407,8 @@ CLAIMS["C13"] = dict(
          "path that the violation cues are exactly those an independent "
          "specification derives from the corrupted state, that the checker "
          "never crashes, and that the real rtdc_copy's output gets the same "
-         "violations.",
+         "violations."
+         " Dataset kinds include mask-only and fl3-only files.",
     note="Trusted: z3, symx, h5py stand-in, reader view (validated by "
          "replaying on real files with real h5py incl. external links). "
          "Only violations are specified (not alerts/info); tdms, ancillary "
@@ -425,7 +433,8 @@ CLAIMS["C12"] = dict(
          "kernel (valid selected events in the chosen scale, bin centres, "
          "default bins and bandwidths per axis), NaN at invalid positions, "
          "and that get_quantile_levels keeps the interpolation grid finite "
-         "and strictly monotonic.",
+         "and strictly monotonic."
+         " In get_quantile_levels +-inf is a third kind of value: neither NaN nor inf events reach the interpolation.",
     note="NOT decided (floating-point library code, not encodable): that "
          "the spline / Gaussian / product-kernel estimators and the "
          "percentile itself compute the reference values; "
